@@ -7,6 +7,16 @@ import (
 	"strings"
 )
 
+// attributeValueEscaper makes a value safe inside a double quoted attribute.
+// Single quotes are left alone (they are used for JavaScript strings in
+// onclick).
+var attributeValueEscaper = strings.NewReplacer(
+	"&", "&amp;",
+	"<", "&lt;",
+	">", "&gt;",
+	`"`, "&#34;",
+)
+
 type Tag struct {
 	tag        string
 	attributes map[string]string
@@ -33,7 +43,8 @@ func (c *Tag) WriteHTMLTo(w io.Writer) (int64, error) {
 	for _, name := range names {
 		value := c.attributes[name]
 		if value != "" {
-			attributes += fmt.Sprintf(`%s="%s" `, name, value)
+			attributes += fmt.Sprintf(`%s="%s" `, name,
+				attributeValueEscaper.Replace(value))
 		}
 	}
 
